@@ -77,7 +77,15 @@ def canary_oracle(c):
     return None
 
 
+def _canon(v):
+    try:
+        return encode.value_term(v)
+    except TypeError:
+        return type(v).__name__
+
+
 _base_logs = {}
+_base_spots = {}
 
 
 def tagged_payloads(rnd, specs, names):
@@ -99,7 +107,16 @@ def tagged_payloads(rnd, specs, names):
 
 def injection_oracle(c):
     """Adding content at an Any / untyped / extra position must not cause additional constructor calls."""
-    calls = sorted((e[0], e[2]) for e in c.log if e[0] in ('init', 'strctor'))      # by class: arguments legitimately differ
+    spot = c.desc.split('|')[2] if c.desc.count('|') >= 2 else _base_spots.get(c.desc[5:], '')
+    if c.desc.startswith('base:'):
+        spot = _base_spots.get(c.desc[5:], '')
+
+    def sig(e):
+        if e[0] == 'strctor':
+            return (e[0], e[2], e[3])
+        # extras and the injection spot legitimately differ between the base and the injected document
+        return (e[0], e[2], repr(sorted((k, _canon(v)) for k, v in e[3].items() if k not in ('_yatiml_extra', spot))))
+    calls = sorted(sig(e) for e in c.log if e[0] in ('init', 'strctor'))
     if c.desc.startswith('base:'):
         _base_logs[c.desc[5:]] = calls
         return None
@@ -151,8 +168,9 @@ def directed(rnd, specs, names, counter):
                 inj.value.append((loadcase.S(spot), encode.copy_tree(p)))
                 if spot not in ('extra_key', '_yatiml_extra'):
                     b.value.append((loadcase.S(spot), loadcase.S('x')))
+                _base_spots[key] = spot
                 yield ('class', s['name']), b, 'base:' + key
-                yield ('class', s['name']), inj, 'inject:' + key + '|' + ('extra' if spot in ('extra_key', '_yatiml_extra') else 'any-param')
+                yield ('class', s['name']), inj, 'inject:' + key + '|' + ('extra' if spot in ('extra_key', '_yatiml_extra') else 'any-param') + '|' + spot
 
 
 def stream(ctx):
